@@ -222,11 +222,12 @@ Local Notation mW3 :=
 Definition clen (w : sworld) : nat := length (filter cvis (tr w)).
 
 (* after 25 calls the scheduled run has a longer command-side sub-trace than the always-ready run
-   after ANY m <= 25 calls; they meet again later (both have 29 entries after 60 calls) *)
+   after ANY m <= 25 calls; they meet again later (both have 24 entries after 60 calls) *)
 Example C12m_ex_overtakes :
   forallb (fun m => clen (nsvc mD m (eager mW3)) <? clen (nsvc mD 25 mW3)) (seq 0 26) = true /\
   invE mD (st mW3) = true /\
-  clen (nsvc mD 60 mW3) = 29 /\ clen (nsvc mD 60 (eager mW3)) = 29.
+  clen (nsvc mD 25 mW3) = 17 /\ clen (nsvc mD 25 (eager mW3)) = 14 /\
+  clen (nsvc mD 60 mW3) = 24 /\ clen (nsvc mD 60 (eager mW3)) = 24.
 Proof. vm_compute. repeat split. Qed.
 
 (* ================================================================== *)
@@ -264,7 +265,8 @@ Proof. vm_compute. repeat split. Qed.
 (* (ii) a handler script shared by both sides (Script.key_of ignores the machine).
    one command "+X" with a read handler whose script answers "A" then "B"; events: TEST +X (quiet
    as a TEST: no test handler, no variables), READ +X; input: 3 line feeds, "AT+X?\n"; 6 writes
-   refused.  Scheduled: the command line gets the first answer, always ready: the second. *)
+   refused.  Scheduled: the command line gets the first answer, always ready: the second (the
+   global byte stream happens to be the same here; which producer emitted "A" is not). *)
 Definition sD : desc :=
   mkDesc [[mkCmd [43; 88]%N None false true false false [] false false false]] [] 64 None 0%N 2 false.
 Definition s_script : shs :=
@@ -280,5 +282,5 @@ Example C12m_ex_shared_script_necessary :
   inq (io (nsvc sD 120 (eager sW))) = [] /\ snd (sdo sD (nsvc sD 120 (eager sW)) OService) = ST_OK /\
   cmd_output (tr (nsvc sD 120 sW)) = [10; 65; 10; 10; 79; 75; 10]%N /\
   cmd_output (tr (nsvc sD 120 (eager sW))) = [10; 66; 10; 10; 79; 75; 10]%N /\
-  nl_eqb (output_of (tr (nsvc sD 120 sW))) (output_of (tr (nsvc sD 120 (eager sW)))) = false.
+  nl_eqb (output_of (tr (nsvc sD 120 sW))) (output_of (tr (nsvc sD 120 (eager sW)))) = true.
 Proof. vm_compute. repeat split. Qed.
